@@ -167,6 +167,7 @@ pub fn gen_script(rng: &mut Rng, c14_only: bool) -> HostileScript {
     let comp = if rng.chance(1, 2) { None } else { Some(*rng.pick(&[CompKind::Gzip, CompKind::Zlib, CompKind::Zstd, CompKind::Lz4, CompKind::BrotliGeneric])) };
     let role = if c14_only { TargetRole::Subscriber } else { *rng.pick(&[TargetRole::Subscriber, TargetRole::Subscriber, TargetRole::Requestor, TargetRole::Replier, TargetRole::ServerRawBytes]) };
     let n = rng.usize(1, 6);
+    let long_run_used = std::cell::Cell::new(false);
     let frames = (0..n)
         .map(|_| {
             if c14_only || rng.chance(1, 5) {
@@ -181,8 +182,17 @@ pub fn gen_script(rng: &mut Rng, c14_only: bool) -> HostileScript {
                 let batched = role == TargetRole::Subscriber && rng.chance(1, 2);
                 let k = if batched { rng.usize(0, 4) } else { 1 };
                 // long runs of well-formed frames that carry nothing (empty batches), ready all at once
+                // (at most one long run per script: the consumer only starts reading once everything
+                // has been written, so that it finds the frames ready all at once, and what is
+                // written before that has to fit into the flow-control windows on the way — two
+                // runs of 40000 compressed frames do not, and the writer then waits for a reader
+                // that waits for the writer)
                 if batched && k == 0 && rng.chance(1, 2) {
-                    return Crafted { msgs: vec![], batched: true, mutations: vec![], invalid: None, repeat: *rng.pick(&[100usize, 5_000, 40_000]) };
+                    let repeat = if long_run_used.get() { 100 } else { *rng.pick(&[100usize, 5_000, 40_000]) };
+                    if repeat > 100 {
+                        long_run_used.set(true);
+                    }
+                    return Crafted { msgs: vec![], batched: true, mutations: vec![], invalid: None, repeat };
                 }
                 Crafted { msgs: (0..k).map(|_| (rng.usize(0, 200), rng.next())).collect(), batched, mutations: gen_mutations(rng), invalid: None , repeat: 1 }
             }
